@@ -727,8 +727,8 @@ def coll_changed(I, state, a):
     if a[0] != "ref":
         return
     cur = av_get(I.load_root(state, a[1]), a[2], I.uni)
-    if cur is not None and cur[0] == "coll" and total_tmpl(cur) is not None:
-        new = ("coll", cur[1], cur[2], frozenset(x for x in cur[3] if not (isinstance(x, tuple) and x and x[0] == "total")))
+    if cur is not None and cur[0] == "coll" and (total_tmpl(cur) is not None or any(isinstance(x, tuple) and x and x[0] == "pairs_of" for x in cur[3])):
+        new = ("coll", cur[1], cur[2], frozenset(x for x in cur[3] if not (isinstance(x, tuple) and x and x[0] in ("total", "pairs_of"))))
         root_av = I.load_root(state, a[1])
         I.store_root(state, a[1], av_set(root_av, a[2], new, I.uni) if a[2] else new)
 
@@ -822,6 +822,18 @@ def m_push(I, state, frame, bi, t, args, span):
                            key=(x[1], x[2]) if x[0] == "key" else (None, frozenset()), elem=x if x[0] != "key" else None,
                            stack=frame.stack))
         coll_add(I, state, a, x, ne=True)
+        # (key, value) records collected in a local Vec and written into a map by one `extend` later: remember each push as
+        # the deferred insertion it is (site and context of the push), replayed by the extend
+        fs = adt_variants(x)[0] if (x[0] == "adt" and x[1] == "tuple" and len(x[2]) == 1) else None
+        if a[0] == "ref" and not a[2] and fs is not None and len(fs) == 2 and fs[0][0] == "str":
+            pend = I.__dict__.setdefault("pending_pairs", {})
+            sk = I.sitekey(frame, bi, -1)
+            old = pend.setdefault(a[1], {}).get(sk)
+            pend[a[1]][sk] = dict(fn=frame.body.name, bb=bi, span=span, key=join(old["key"], fs[0]) if old else fs[0],
+                                  value=join(old["value"], fs[1]) if old else fs[1], stack=frame.stack, **ctx(I, state))
+            cur = av_get(I.load_root(state, a[1]), a[2], I.uni)
+            if cur is not None and cur[0] == "coll":
+                I.store_root(state, a[1], ("coll", cur[1], cur[2], cur[3] | frozenset([("pairs_of", a[1])])))
     return [(TOP, state)]
 
 
@@ -2262,6 +2274,18 @@ def m_coll_contains(I, state, frame, bi, t, args, span):
 
 @model("<std::collections::HashSet<T, S, A> as std::iter::Extend<T>>::extend", "<std::collections::HashMap<K, V, S, A> as std::iter::Extend<(K, V)>>::extend")
 def m_extend2(I, state, frame, bi, t, args, span):
+    a = args[0]
+    src = deref(I, state, args[1])
+    if src[0] == "coll" and a[0] == "ref" and self_field_of(I, a) is None:
+        for tg in src[3]:
+            if isinstance(tg, tuple) and tg and tg[0] == "pairs_of":
+                # the deferred insertions of a Vec of (key, value) records (see m_push)
+                for sk, pr in sorted(getattr(I, "pending_pairs", {}).get(tg[1], {}).items(), key=repr):
+                    cur = av_get(I.load_root(state, a[1]), a[2], I.uni)
+                    tags = cur[3] if (cur is not None and cur[0] == "coll") else frozenset()
+                    I.rec.put("map_op", sk, dict(pr, op="insert", target=("local", a[1], tags), deferred=True,
+                                                 stored_keys=cur[2] if (cur is not None and cur[0] == "coll") else None))
+                    coll_add(I, state, a, pr["value"], pr["key"])
     return m_extend(I, state, frame, bi, t, args, span)
 
 
